@@ -228,7 +228,7 @@ func run(r *report.Report) {
 	r.Assume("2 publishers x 2-3 numbered messages (QoS patterns 000,111,222,121,202) and 2 subscribers with granted QoS 2 and 1, all autonomous threads that acknowledge as they read; windows 1-2 (quantifier: up to 8 publishers, 4 subscribers, window 10)",
 		"order is compared per (publisher, published QoS, received QoS); retransmission order is compared with the order of the original transmission",
 		"the iteration order of Go maps inside the code under test is an owned choice (canonical order by default, rotations as deviations); set-up runs on the default schedule",
-		"the client library's callback / service-command order is checked by C10 and C17's harnesses and reported there")
+		"the client library's callback order and the service's command order are checked by running the client harnesses of C10 and C17 with only their order clauses switched on")
 	mk := func(p params) string { js, _ := json.Marshal(p); return string(js) }
 	th := r.Tier == "thorough"
 	type c struct {
@@ -242,6 +242,17 @@ func run(r *report.Report) {
 		cfgs = []c{{"resume-w2", params{Mode: "resume", Window: 2}, 4}, {"resume-w3", params{Mode: "resume", Window: 3}, 3}, {"resume-w4", params{Mode: "resume", Window: 4}, 3},
 			{"live-w1", params{Mode: "live", Window: 1, Msgs: 3}, 2}, {"live-w2", params{Mode: "live", Window: 2, Msgs: 3}, 2}, {"live-w1-b3", params{Mode: "live", Window: 1, Msgs: 2}, 3}}
 	}
+	// client library: inbound messages reach the callback in arrival order; service commands are executed first-in first-out
+	d10, d17 := 6, 5
+	if th {
+		d10, d17 = 8, 7
+	}
+	st10 := explore.Explore(explore.Config{Harness: "C10.hist", Params: fmt.Sprintf(`{"Depth":%d,"IDs":2,"QOS":[0,1],"Faults":true}`, d10), Bound: 0, Workers: report.Workers(), Deadline: r.Deadline(), OnlyClauses: []string{"callback-order"}})
+	r.AddExploration("client-callback-order", "history", fmt.Sprintf("the C10 client harness (all broker scripts of depth %d, 2 ids, QoS 0/1, write faults) with only the callback-order clause", d10), st10,
+		"QoS 0/1 messages reach the application callback in the order the broker sent them; non-trivial = fault/retransmission/resume events", "fault", "retransmission", "resume")
+	st17 := explore.Explore(explore.Config{Harness: "C17.hist", Params: fmt.Sprintf(`{"Depth":%d,"Faults":true,"Stops":true}`, d17), Bound: 0, Workers: report.Workers(), Deadline: r.Deadline(), OnlyClauses: []string{"commands-fifo"}})
+	r.AddExploration("service-command-fifo", "history", fmt.Sprintf("the C17 service harness (all histories of depth %d incl. failures and Stop/Start) with only the commands-fifo clause", d17), st17,
+		"the command packets the broker sees are a subsequence of the commands in issue order; non-trivial = fault/stop events", "fault", "stopped", "restarted")
 	for _, cf := range cfgs {
 		st := explore.Explore(explore.Config{Harness: "C15.order", Params: mk(cf.p), Bound: cf.bound, Workers: report.Workers(), Deadline: r.Deadline()})
 		mode := "schedule"
